@@ -79,6 +79,39 @@ def own_part(ck, tier):
                     break
 
 
+def returned_arrays_part(ck, tier):
+    """repeated read-outs return the same values, and a read-out made after the current point was replaced (as the tempering worker does)
+    shows the replacement, aligned with its log-probability.  (Whether a returned array is a view of the stored chain is not part of
+    the property: the ensemble sampler returns views at the pinned commit.)"""
+    from harness.c03 import GaussPost
+    for kind in ("gibbs", "metropolis", "pca", "hmc", "ensemble"):
+        ch = _mk_chain(kind, 29 + seed())
+        cname = type(ch).__name__
+        ck.case(("returned-arrays", kind))
+        try:
+            with contextlib.redirect_stdout(io.StringIO()):
+                ch.advance(3 if kind == "ensemble" else 9)
+            p0 = np.array(ch.get_probabilities(burn=0), dtype=float).copy()
+            s0 = np.array(ch.get_sample(burn=0), dtype=float).copy()
+            p1, s1 = np.asarray(ch.get_probabilities(burn=0), dtype=float), np.asarray(ch.get_sample(burn=0), dtype=float)
+            ok = np.array_equal(p1, p0) and np.array_equal(s1, s0)
+            ok2 = True
+            if kind != "ensemble":
+                newpt = np.array([0.125, -0.375])
+                ch.replace_last(newpt)
+                ch.probs[-1] = GaussPost(2)(newpt) * ch.inv_temp
+                p2, s2 = np.asarray(ch.get_probabilities(burn=0), dtype=float), np.asarray(ch.get_sample(burn=0), dtype=float)
+                ok2 = bool(np.array_equal(s2[-1], newpt) and p2[-1] == GaussPost(2)(newpt) * ch.inv_temp and np.array_equal(p2[:-1], p0[:-1]))
+        except Exception as ex:
+            ck.violation("read-out raised", {"class": cname, "error": repr(ex)[:200]}, site=f"{cname}.readout")
+            continue
+        if not ok:
+            ck.violation("repeated read-outs return the same values", {"class": cname}, site=f"{cname}.readout:repeat")
+        if not ok2:
+            ck.violation("a read-out made after the current point was replaced shows the replacement, aligned with its log-probability",
+                         {"class": cname}, site=f"{cname}.readout:after-replacement")
+
+
 def reload_part(ck, tier):
     """read-outs of a sampler that was saved and reloaded are those of the original (every burn / thin of a small grid, and get_interval)"""
     import tempfile
@@ -191,7 +224,7 @@ def run(tier):
                                     ck.violation("get_marginal raised", {**ident, "error": repr(ex)}, site=f"{cname}.get_marginal")
                     # get_interval
                     if thin <= 3 and (burn <= 3 or burn >= n - 1):
-                        for f8 in ((2, 5, 7) if tier == "quick" else range(1, 8)):
+                        for f8 in ((0, 2, 5, 7, 8) if tier == "quick" else range(0, 9)):         # the boundary fractions 0 and 1 included
                             for m in (0, 1, 2, 3, 6):
                                 idn = {**ident, "fraction": f8 / 8, "samples": m or None}
                                 ck.case(("int", kind, n, burn, thin, f8, m))
@@ -229,6 +262,9 @@ def run(tier):
         ck.violation("IntervalOK: rows with their own log-probabilities, all from the requested top fraction, 2-D, at most the requested count",
                      ev_ident[i], site=f"{ev_ident[i]['class']}.get_interval")
     reload_part(ck, tier)
+    returned_arrays_part(ck, tier)
+    from harness import c03 as _c03
+    _c03.defaults_part(ck, tier)                 # default-argument read-outs are aligned row for row
     from harness import repotests
     repotests.run_part(ck, "C14")          # traces of the repository's own MCMC tests, judged by TestRunTrace.tla
     return ck.finish()
